@@ -16,13 +16,23 @@ import vlib
 
 ALL_KINDS = ["Create", "SetPw", "Delete", "AuthPlain", "AuthLogin", "AuthPair", "AuthDirect",
              "SOpen", "SEhlo", "SAuth", "SMail", "SRset", "SClose"]
-ALL_MAPS = ["none", "identity", "s_ab", "s_swap", "s_id", "s_ba", "s_proj", "r_strip", "r_append",
+OLD_MAPS = ["none", "identity", "s_ab", "s_swap", "s_id", "s_ba", "s_proj", "r_strip", "r_append",
             "b_local", "b_localopt"]
-ALL_PWS = ["empty", "a", "b", "nfc", "l72", "l73", "long", "long2"]
+RX_MAPS = ["r_class", "r_dollar", "r_alt"]        # regexp maps that rely on full_match for their anchors
+ALL_MAPS = OLD_MAPS + RX_MAPS
+OLD_PWS = ["empty", "a", "b", "nfc", "l72", "l73", "long", "long2"]
+# pairs of passwords a "helpful" preparation (NFC, spaces, case, width, trimming) would make equal
+PW_TWINS = [("nfc", "nfd"), ("nbsp", "sp"), ("a", "aup"), ("a", "atr"), ("b", "bwide"), ("jamo", "jamoc")]
+TWIN_PWS = sorted({p for pair in PW_TWINS for p in pair})
+ALL_PWS = OLD_PWS + [p for p in TWIN_PWS if p not in OLD_PWS]
 ALL_VARIANTS = ["plain", "upper", "nfd", "wide"]
+EMAIL_VARIANTS = ["alabel", "alabelup"]           # spellings of ub only the e-mail aware normalisation equates
 ALL_BAD = ["space", "zwj"]
-ALL_DEVS = ["LoginMapTwice", "BcryptTrunc"]
-ALL_UX = ["plain", "under", "underb", "pct"]      # names that are no account; three are SQL LIKE patterns
+ALL_DEVS = ["LoginMapTwice", "BcryptTrunc", "RegexpAltAnchor"]
+OLD_UX = ["plain", "under", "underb", "pct"]      # names that are no account; three are SQL LIKE patterns
+NEAR_UX = ["pre_a", "suf_a", "pre_b", "suf_b"]    # ... that contain an account name
+DEV_UX = ["sharp", "zwnj"]                        # ... that differ from ub by an IDNA deviation character
+ALL_UX = OLD_UX + NEAR_UX + DEV_UX
 ALL_MFS = ["addr", "null", "nullparam", "upper", "utf8"]          # reverse-paths tried in MAIL
 
 CFG = """SPECIFICATION %(spec)s
@@ -38,6 +48,8 @@ CONSTANTS
   Tbls = {%(tbls)s}
   Defers = {%(defers)s}
   MailFroms = {%(mfs)s}
+  Doms = {%(doms)s}
+  EmailVariants = {%(emailv)s}
   MaxOps = %(maxops)d
   Devs = {%(devs)s}
   Gen = %(gen)s
@@ -49,10 +61,11 @@ def q(xs):
     return ", ".join('"%s"' % x for x in xs)
 
 
-def cfg(spec="Spec", variants=ALL_VARIANTS, bad=ALL_BAD, pws=ALL_PWS, maps=ALL_MAPS, norms=("auto",),
-        kinds=ALL_KINDS, maxops=12, devs=(), gen=False, tail="", ux=ALL_UX, tbls=("mem",), defers=(True, False),
-        mfs=ALL_MFS):
+def cfg(spec="Spec", variants=ALL_VARIANTS, bad=ALL_BAD, pws=OLD_PWS, maps=OLD_MAPS, norms=("auto",),
+        kinds=ALL_KINDS, maxops=12, devs=(), gen=False, tail="", ux=OLD_UX, tbls=("mem",), defers=(True, False),
+        mfs=ALL_MFS, doms=("ascii",), emailv=()):
     return CFG % dict(ux=q(ux), tbls=q(tbls), defers=", ".join("TRUE" if d else "FALSE" for d in defers), mfs=q(mfs),
+                      doms=q(doms), emailv=q(emailv),
                       spec=spec, variants=q(variants), bad=q(bad), pws=q(pws), maps=q(maps), norms=q(norms),
                       kinds=q(kinds), maxops=maxops, devs=q(devs), gen="TRUE" if gen else "FALSE", tail=tail)
 
@@ -77,6 +90,9 @@ def open_findings(pid):
     return [f for f in load_findings(pid) if f.get("status", "open") == "open"]
 
 
+TWIN_SET = {(a, b) for a, b in PW_TWINS} | {(b, a) for a, b in PW_TWINS}
+
+
 # ---- structural classes of a history (sampling only, decides nothing) ----------
 def classes(b):
     tags = set()
@@ -95,7 +111,7 @@ def classes(b):
                 changed[u] = cur[u][0]
                 if u in auth_seen:
                     touched_after_auth.add(u)
-            cur[u] = (s["pw"], s["sp"]["v"], s.get("sch", "bcrypt"))
+            cur[u] = (s["pw"], s["sp"]["v"], s.get("sch", "bcrypt"), a)
             deleted.pop(u, None)
         elif a == "Delete":
             if not s["fail"] and u in cur:
@@ -107,10 +123,26 @@ def classes(b):
                 tags.add("reauth")               # authenticated, account changed, authenticated again
             if u in ("ua", "ub"):
                 auth_seen.add(u)
-            if u in cur and cur[u][0] != s["pw"]:
+            if u in cur and cur[u][0] != s["pw"] and s["pw"] in OLD_PWS:
                 tags.add("probe:%s:%s" % (s["pw"], cur[u][2]))     # wrong password against an existing account
-            for x, (pw, v, sch) in cur.items():
-                if s["pw"] == pw and u == "ux" and s["sp"]["v"] != "plain":
+            kind = a + s.get("mech", "")
+            sv = s["sp"]["v"]
+            if u in cur:                                   # (the account the name is a spelling of, maps aside)
+                stored, op = cur[u][0], cur[u][3]
+                if (stored, s["pw"]) in TWIN_SET:
+                    tags.add("pwtwin:%s:%s:%s" % (op, stored, s["pw"]))      # a twin of the password in force
+                if stored == s["pw"] and stored in TWIN_PWS:
+                    tags.add("pwexact:%s:%s" % (op, stored))                # the very octets that were set
+                if stored == s["pw"] and sv in EMAIL_VARIANTS:
+                    tags.add("email:%s:%s" % (sv, kind))                    # A-label spelling, current password
+            if u == "ux" and mp in RX_MAPS and sv in NEAR_UX and "ua" in cur and cur["ua"][0] == s["pw"]:
+                tags.add("rx:%s:%s" % (mp, sv))            # a name the map must not cover, password of the map's target
+            if u == "ub" and mp in RX_MAPS and "ua" in cur and cur["ua"][0] == s["pw"]:
+                tags.add("rxhit:%s" % mp)
+            if u == "ux" and sv in DEV_UX and b["cfg"].get("dom") == "idn" and "ub" in cur and cur["ub"][0] == s["pw"]:
+                tags.add("devtwin:%s:%s" % (sv, kind))     # deviation-character twin of ub with ub's password
+            for x, (pw, v, sch, _op) in cur.items():
+                if s["pw"] == pw and u == "ux" and s["sp"]["v"] in OLD_UX[1:]:
                     # a non-account name made of SQL pattern characters with the password of an account
                     tags.add("pattern:%s:%s:%s" % (b["cfg"].get("tbl", "mem"), s["sp"]["v"], a))
                 if s["pw"] == pw:
@@ -167,6 +199,10 @@ def select(ctx, pool, n, quota):
             chosen.append(b)
     for t in sorted(by_tag):
         k = max(3, quota // 3) if t.startswith(("pattern:", "mail-", "probe:")) else quota
+        if t.startswith(("pwtwin:", "rx:", "rxhit:", "email:", "devtwin:")):
+            k = 3
+        elif t.startswith("pwexact:"):
+            k = 2
         for b in by_tag[t][:k]:
             take(b)
     for b in pool:
@@ -201,24 +237,29 @@ def run(ctx, replay):
 
     # TLC runs and the harness build are independent: run them side by side
     from concurrent.futures import ThreadPoolExecutor
-    pool_ex = ThreadPoolExecutor(max_workers=10)
+    pool_ex = ThreadPoolExecutor(max_workers=12)
     fut_build = pool_ex.submit(ctx.build_harness, "authcheck")
 
     # ---- (T) exhaustive model checking of the design ---------------------------
     # (replay mode runs the small configuration too so that the evidence file stays complete)
     if thorough and not replay:
-        fut_mc = pool_ex.submit(ctx.tlc, "Auth", None, name="mc", workers=8, timeout=2400,
-                                cfg_text=cfg(pws=["empty", "a", "l72", "l73", "long"], tail=MC_TAIL))
+        fut_mc = pool_ex.submit(ctx.tlc, "Auth", None, name="mc", workers=6, timeout=2400, heap="4g",
+                                cfg_text=cfg(pws=["empty", "a", "l72", "l73", "long"], maps=ALL_MAPS,
+                                             ux=OLD_UX + ["suf_b"], doms=["idn"], emailv=["alabel"], tail=MC_TAIL))
     else:
-        fut_mc = pool_ex.submit(ctx.tlc, "Auth", None, name="mc", workers=4, timeout=600,
-                                cfg_text=cfg(variants=["plain", "upper"], bad=["space"],
+        # (the spellings of "ux" other than suf_b are the same name for the design, and r_class / r_alt are the
+        # function r_strip is: the quick configuration leaves the duplicates out)
+        fut_mc = pool_ex.submit(ctx.tlc, "Auth", None, name="mc", workers=4, timeout=600, heap="2g",
+                                cfg_text=cfg(variants=["plain", "upper"], bad=["space"], maps=OLD_MAPS + ["r_dollar"],
+                                             ux=["plain", "suf_b"], doms=["idn"], emailv=["alabel"],
                                              pws=["a", "l72", "l73"], tail=MC_TAIL))
     # non-vacuity: each as-is deviation must be found by the same invariant
     fut_asis = {}
     if not replay:
         for d in ALL_DEVS:
-            fut_asis[d] = pool_ex.submit(ctx.tlc, "Auth", None, name="asis-" + d, workers=2, timeout=300,
+            fut_asis[d] = pool_ex.submit(ctx.tlc, "Auth", None, name="asis-" + d, workers=2, timeout=300, heap="1g",
                                          cfg_text=cfg(variants=["plain", "upper"], bad=["space"],
+                                                      maps=OLD_MAPS + ["r_alt"], ux=["plain", "suf_b"],
                                                       pws=["a", "l72", "l73"], devs=[d],
                                                       tail="VIEW View\nINVARIANTS NoViolation\n"))
 
@@ -241,10 +282,31 @@ def run(ctx, replay):
             # the real table.sql_table (sqlite3) behind pass_table, names with SQL pattern characters
             ("sim-sql", dict(pws=["a", "b"], variants=["plain", "upper"], bad=["space"], kinds=tab, tbls=["sql"],
                              defers=[True], tail=steer)),
-            ("sim-steer", dict(norms=["auto", "precis_casefold"], tbls=["mem", "sql"], tail=steer)),
-            ("sim-full", dict(norms=["auto", "precis_casefold"], tbls=["mem", "sql"], tail=GEN_TAIL)),
+            # regexp maps whose anchors come from full_match, names that contain a covered name
+            ("sim-rx", dict(pws=["a", "b"], variants=["plain", "upper"], bad=[], maps=RX_MAPS + ["r_strip", "r_append"],
+                            ux=["plain"] + NEAR_UX, kinds=tab, tail=steer)),
+            # passwords a preparation step would confuse: set one, try it and its twin
+            ("sim-pw", dict(pws=TWIN_PWS, variants=["plain", "upper"], bad=[], maps=["none", "identity", "s_id"],
+                            ux=["plain"], kinds=tab, tail=steer)),
+            # the e-mail shaped user on an internationalised domain: A-label spellings, deviation-character twins
+            ("sim-idn", dict(pws=["a", "b"], variants=["plain", "upper", "nfd"], bad=[], doms=["idn"], emailv=EMAIL_VARIANTS,
+                             maps=["none", "identity", "s_id", "s_ba", "s_swap", "r_strip", "b_local", "b_localopt"],
+                             ux=["plain", "suf_b"] + DEV_UX, kinds=tab + ["SOpen", "SAuth", "SMail", "SClose"],
+                             tail=steer)),
+            # (the two broad ones; a simulation step costs as much as the state has successors, so they
+            # take one password twin and two of the new names only)
+            ("sim-steer", dict(norms=["auto", "precis_casefold"], tbls=["mem", "sql"], maps=ALL_MAPS,
+                               pws=OLD_PWS + ["nfd"], ux=OLD_UX + ["pre_b", "suf_b"], doms=["ascii", "idn"],
+                               emailv=["alabel"], tail=steer)),
+            ("sim-full", dict(norms=["auto", "precis_casefold"], tbls=["mem", "sql"], maps=ALL_MAPS,
+                              pws=OLD_PWS + ["nfd"], ux=OLD_UX + ["pre_b", "suf_b"], doms=["ascii", "idn"],
+                              emailv=["alabel"], tail=GEN_TAIL)),
         ]
-        futs = [(name, pool_ex.submit(ctx.tlc, "Auth", None, name=name, workers=1, timeout=900, simulate=per,
+        sims.sort(key=lambda x: x[0] not in ("sim-full", "sim-steer"))      # the long ones first
+        focused = ("sim-rx", "sim-pw", "sim-idn")
+        futs = [(name, pool_ex.submit(ctx.tlc, "Auth", None, name=name, workers=1, timeout=2400 if thorough else 900,
+                                      heap="1g",      # (a dozen JVMs run side by side: keep each small)
+                                      simulate=(per * 2) // 3 if name in focused else per,
                                       depth=2 * 12 + 3, cfg_text=cfg(gen=True, **kw))) for name, kw in sims]
         pool = []
         for name, f in futs:
@@ -314,7 +376,8 @@ def run(ctx, replay):
     ctx.log("replayed: %d events" % len(events))
     verdicts, by_t = ctx.validate("AuthTrace", None, events, batch=700,
                                   cfg_text=cfg(spec="TSpec", norms=["auto", "precis_casefold"], tbls=["mem", "sql"], devs=open_devs,
-                                               tail=TRACE_TAIL))
+                                               maps=ALL_MAPS, pws=ALL_PWS, ux=ALL_UX, doms=["ascii", "idn"],
+                                               emailv=EMAIL_VARIANTS, tail=TRACE_TAIL))
 
     ctx.log("traces validated by TLC")
     ok = drift = known_traces = 0
@@ -380,10 +443,14 @@ def run(ctx, replay):
     ctx.cov["distinct_nontrivial"] = sum(1 for b in behs if "hit" in b.get("_tags", classes(b)))
     ctx.cov["class_counts"] = counts
     ctx.cov["strict_identity_differences"] = strict_id
-    ctx.cov["rule"] = ("histories (<= 12 operations) = complete behaviours of Auth.tla printed by TLC -simulate under four "
-                       "constant sets (dense passwords, long passwords, gate, full), de-duplicated; seeded sample with a "
+    ctx.cov["rule"] = ("histories (<= 12 operations) = complete behaviours of Auth.tla printed by TLC -simulate under nine "
+                       "constant sets (dense passwords, long passwords, gate, sql table, regexp maps anchored by full_match "
+                       "with names that contain a covered name, password twins under NFC/space/case/width/trim preparation, "
+                       "e-mail shaped user on an IDN with A-label spellings and deviation-character twins, steered, full), "
+                       "de-duplicated; seeded sample with a "
                        "quota per structural class (normalisation, stale password, deleted account, authzid kinds, maps, "
-                       "PLAIN/LOGIN pair, bcrypt/argon2, MAIL before/after AUTH); non-trivial = some authentication "
+                       "PLAIN/LOGIN pair, bcrypt/argon2, MAIL before/after AUTH, password twin tried after Create/SetPw, "
+                       "uncovered name under each regexp map, A-label spelling per mechanism); non-trivial = some authentication "
                        "supplies the password currently set for some account")
     ctx.cov["violated_predicates"] = preds
     ctx.cov["open_deviations"] = open_devs
@@ -393,6 +460,9 @@ def run(ctx, replay):
     ctx.assumptions += [
         "spelling variants (upper case, NFD, full-width) are strings RFC 8265 UsernameCaseMapped maps to the plain form; "
         "the harness only translates identifiers to strings and back by exact comparison",
+        "the A-label spellings of the e-mail shaped user are offered only under auth_map_normalize auto (e-mail aware) and "
+        "only to the SASL front-end; password identifiers are distinct octet strings, also the pairs a PRECIS/NFC/case/"
+        "width/trim preparation would equate; a regexp map with full_match covers a name only if the whole name matches",
         "the credential table is auth.pass_table over an in-memory module.MutableTable with injectable write failures",
         "bcrypt cost 4 / argon2 t=1,m=64KiB for CreateUserHash; SetUserPassword uses the code's own default cost",
         "identity agreement of PLAIN and LOGIN is read as 'same account up to normalisation'",
@@ -408,7 +478,7 @@ META = {
                  "endpoint; recorded traces validated against AuthTrace.tla (property predicates in AuthObs.tla)",
     "text": "TLC visits every state of the credential-table automaton (2 accounts x passwords x hash scheme, every "
             "create/set-password/delete with every refusal cause, PLAIN/LOGIN with every spelling, authzid kind and "
-            "each of 11 user-name maps, the submission connection) and checks the C14 predicates in every state; the "
+            "each of 14 user-name maps, the submission connection) and checks the C14 predicates in every state; the "
             "same predicates are evaluated by TLC over traces recorded from the real code driven with TLC-simulated "
             "histories of up to 12 operations (420 in quick, 5000 in thorough).",
     "note": "Histories beyond the exhaustive bound are sampled (simulation), not enumerated; the table backend is an "
